@@ -73,18 +73,21 @@ func (r *Recorder) reset(f [nFuncs]uint64) {
 }
 
 func (r *Recorder) log() string {
-	s := ""
+	var b strings.Builder
 	for _, c := range r.Calls {
-		fl := ""
+		b.WriteString(callName(c.Func, c.Variant))
 		if c.Fail {
-			fl = "!"
+			b.WriteString("!")
 		}
-		s += callName(c.Func, c.Variant) + fl + "(" + c.Arg + ");"
+		b.WriteString("(")
+		b.WriteString(c.Arg)
+		b.WriteString(");")
 	}
 	if r.Bad != "" {
-		s += "BAD:" + r.Bad
+		b.WriteString("BAD:")
+		b.WriteString(r.Bad)
 	}
-	return s
+	return b.String()
 }
 
 // curRec[i] is the recorder of task i's operation in progress; [MaxTasks] is the main
